@@ -1,7 +1,8 @@
 import ZI.DeclModel
 /-! Driver for the declaration-algebra layer (C20).  World lines: `iface <i> : <bases>`, `class <c> <only 0/1> : <py bases> | <declared ifaces>`;
     declarations: `decl <name> = <tree>` with tree tokens `i3` `c2` `(` `)` `[` `]` `D(`; queries `iter A`, `mem A <i>`,
-    `sub A B`, `add A B` (A, B names; `add A i3` adds a bare interface). -/
+    `sub A B`, `add A B` (A, B names; `add A i3` adds a bare interface); `flat A`, `flat c2`, `flat A + B`, `flat A - B`: the interfaces of
+    `X.flattened()` in the order yielded (0 = `Interface`). -/
 namespace Drv.Decl
 open ZI.Decl
 structure Cls where
@@ -48,6 +49,30 @@ def St.iter (s : St) (n : String) : List Nat :=
   if n.startsWith "i" && (n.drop 1).toString.toNat?.isSome then [(n.drop 1).toString.toNat!]
   else iterDecl s.ex (((s.decls.find? (·.1 == n)).map (·.2)).getD [])
 
+/-! ### the specification graph for `flattened()`: interface `i` is node `i` (0 = `Interface`), `implementedBy(object)` is node 1000,
+the class specification of class `c` node `1000 + c`, the declaration asked about node 2000 -/
+def objNode : Nat := 1000
+def clsNode (c : Nat) : Nat := 1000 + c
+def declNode : Nat := 2000
+def atomNode : Atom → Nat
+  | .iface i => i
+  | .impl c => clsNode c
+/-- `__bases__` of every specification; `top` = the bases of the declaration asked about -/
+def St.specBases (s : St) (top : List Nat) (x : Nat) : List Nat :=
+  if x == declNode then top
+  else if x == 0 || x == objNode then []
+  else if x > objNode then
+    match (s.classes.find? (·.1 == x - objNode)).map (·.2) with
+    | none => []
+    | some k => k.declared ++ (if k.only then [] else if k.pyBases.isEmpty then [objNode] else k.pyBases.map clsNode)
+  else if (s.bases x).isEmpty then [0] else s.bases x
+def St.flat (s : St) (top : List Nat) (node : Nat) : List Nat :=
+  flattened (s.specBases top) 0 (· < objNode) (s.ibases.length + s.classes.length + 4) node
+/-- the `__bases__` of a named operand: the normalised arguments, kept as they are (no de-duplication) -/
+def St.atoms (s : St) (n : String) : List Nat :=
+  if n.startsWith "i" && (n.drop 1).toString.toNat?.isSome then [(n.drop 1).toString.toNat!]
+  else (normalizeList s.ex (((s.decls.find? (·.1 == n)).map (·.2)).getD [])).map atomNode
+
 partial def loop (h : IO.FS.Stream) (s : St) : IO Unit := do
   let line ← h.getLine
   if line.isEmpty then return ()
@@ -66,6 +91,12 @@ partial def loop (h : IO.FS.Stream) (s : St) : IO Unit := do
   | ["iter", a] => IO.println (shw (s.iter a)); loop h s
   | ["memall", a] => IO.println (shw ((s.iter a).toArray.qsort (· < ·)).toList); loop h s
   | ["mem", a, i] => IO.println (if (s.iter a).contains i.toNat! then "1" else "0"); loop h s
+  | ["flat", a] =>
+      if a.startsWith "c" && (a.drop 1).toString.toNat?.isSome then IO.println (shw (s.flat [] (clsNode (a.drop 1).toString.toNat!)))
+      else IO.println (shw (s.flat (s.atoms a) declNode))
+      loop h s
+  | ["flat", a, "+", b] => IO.println (shw (s.flat (add s.ext (s.iter a) (s.iter b)) declNode)); loop h s
+  | ["flat", a, "-", b] => IO.println (shw (s.flat (sub s.ext (s.iter a) (s.iter b)) declNode)); loop h s
   | ["sub", a, b] => IO.println (shw (sub s.ext (s.iter a) (s.iter b))); loop h s
   | ["add", a, b] => IO.println (shw (add s.ext (s.iter a) (s.iter b))); loop h s
   | _ => IO.println "bad"; loop h s
